@@ -3,7 +3,9 @@
   Composition of the C05 development: `decImpl ∘ encImpl = id` on every value of every declaration,
   through the DDS/`Data:` split and through any lossless content coding.
   What is *not* in these theorems (oracle only, see design_notes/C01.md): webob/requests plumbing,
-  gzip itself, the DDS text round trip (C07), file I/O of `open_dods_file`.
+  gzip itself, the DDS text round trip (C07), the operating system's file I/O under `open_dods_file` (what the
+  function does with the bytes of the file — text-mode line loop, offset, binary re-read — IS modelled:
+  `Xdr.openDodsFile`, `C01_open_dods_file`).
 -/
 import PydapModel.XdrTypes
 import PydapModel.XdrSpec
@@ -14,6 +16,17 @@ import Proofs.XdrSize
 import Proofs.EndToEndText
 import Proofs.XdrStream
 import Proofs.XdrSrc
+import PydapModel.XdrFile
+import Proofs.XdrFile
+import PydapModel.XdrFileText
+import Proofs.XdrFileText
+import PydapModel.Handler
+import Proofs.Handler
+import Proofs.HandlerWF
+import Proofs.HandlerWire
+import Proofs.HandlerTyped
+import Proofs.HandlerDdsSplit
+import Proofs.HandlerAscii
 namespace Pydap.C01
 open Pydap Pydap.Xdr
 
@@ -34,8 +47,8 @@ theorem C01_roundtrip_framed (t : Tmpl) (d : Data) (rest : Bytes) (h : WF t d = 
   rw [encImpl_eq t d h]
   exact decImpl_enc t d rest h
 
-/-- what `BaseProxyDap2.__getitem__` / `open_dods_file` do with a response body: split at the
-    separator, decode the data part -/
+/-- what `BaseProxyDap2.__getitem__` does with a response body: split at the separator, decode the data part
+    (`open_dods_file` finds the data part differently: `Xdr.openDodsFile`, section "the saved `.dods` file" below) -/
 def clientRead (t : Tmpl) (raw : Bytes) : Option (Bytes × Except Err (Data × Bytes)) :=
   (splitBody raw).map fun p => (p.1, decImpl t p.2)
 
@@ -106,6 +119,47 @@ theorem C01_e2e_response_text (d : Dds.Dataset) (s0 : Dds.Text) (t : Tmpl) (data
     (ht : E2E.tmplOfDataset (Dds.normDs d) = some t) (hd : WF t data = true) :
     E2E.clientDecode (body (E2E.encodeAscii (s0 ++ ['\n'])) t data) = .ok (Dds.normDs d, data, []) :=
   E2E.clientDecode_body d s0 t data hwf hp hascii hsep ht hd
+/-! ### the served response, from the request to the client's values (round 7)
+
+`C01_end_to_end` takes the declaration, the data and the DDS bytes as given and ASSUMES that the separator does not occur
+in the DDS.  Below the three are what the handler model (`Handler.respond`, PydapModel/Handler.lean; tied by C06/C15's
+correspondence) produces for a request, and the separator hypothesis is proved (`Handler.ddsText_sepFree`). -/
+
+/-- **what the server holds is what the client reads, for every request**: on a well-formed, typed source dataset and
+    for EVERY query that yields a constrained dataset (the whole dataset — empty query — or any projection /
+    hyperslab / sequence selection), with the constrained declaration free of empty containers (`Shaped`) and its
+    names ASCII without newline (`Plain`): the DDS response is `s0 ‖ \n`; the client's split of the data response
+    returns `s0`, and its decoder, driven by the constrained declaration, returns exactly the constrained data
+    (`Handler.dataOf cds`: every variable's values, in declaration order) and consumes the body to the last byte -/
+theorem C01_served_response_read_back (fmt : Int → Handler.Str) (ds cds : Handler.Dataset) (q : Handler.Str)
+    (hw : ds.WF) (ht : ds.TY) (h : Handler.constrained ds q = .ok cds) (hs : cds.Shaped) (hp : cds.Plain) :
+    ∃ s0 body, Handler.respond fmt ds cs!"dds" q = .ok .dds (.complete (s0 ++ ['\n'])) ∧
+      Handler.respond fmt ds cs!"dods" q = .ok .dods (.complete body) ∧
+      clientRead (Handler.tmplOf cds) (Handler.strBytes body)
+        = some (Handler.strBytes s0, .ok (Handler.dataOf cds, [])) := by
+  have hcw := Handler.constrained_wf ds cds q hw h
+  have hx := Handler.xdrWF_of_typed cds hcw (Handler.constrained_ty ds cds q ht h) hs
+  obtain ⟨s0, e, hsf⟩ := Handler.ddsText_sepFree cds hp
+  have e1 : Handler.rsplitDot (cs!"/d." ++ cs!"dds") = some (cs!"/d", cs!"dds") := by decide
+  have e2 : Handler.rsplitDot (cs!"/d." ++ cs!"dods") = some (cs!"/d", cs!"dods") := by decide
+  have n1 : (cs!"dds" = cs!"das") = False := by decide
+  have n2 : (cs!"dods" = cs!"das") = False := by decide
+  have k1 : Handler.lookupKind cs!"dds" = some .dds := by decide
+  have k2 : Handler.lookupKind cs!"dods" = some .dods := by decide
+  refine ⟨s0, Handler.ddsText cds ++ cs!"Data:\n" ++ Handler.bytesStr (Handler.payload cds), ?_, ?_, ?_⟩
+  · rw [← e]
+    unfold Handler.respond Handler.handle
+    rw [Handler.guarded_eq ds _ q _ _ e1]; simp only [n1, if_false, h, k1]; rfl
+  · unfold Handler.respond Handler.handle
+    rw [Handler.guarded_eq ds _ q _ _ e2]; simp only [n2, if_false, h, k2]; rfl
+  · have hb : Handler.strBytes (Handler.ddsText cds ++ cs!"Data:\n" ++ Handler.bytesStr (Handler.payload cds))
+        = Handler.strBytes s0 ++ splitPattern ++ encImpl (Handler.tmplOf cds) (Handler.dataOf cds) := by
+      rw [e, Handler.strBytes_append, Handler.strBytes_append, Handler.strBytes_append, Handler.strBytes_bytesStr]
+      simp [splitPattern, dataMarker, Handler.strBytes, Handler.payload]
+    unfold clientRead splitBody
+    rw [hb, E2E.split_sepFree _ _ hsf]
+    simp [C01_roundtrip _ _ hx]
+
 /-! ### the streaming transports: `StreamReader` (`open_dods_url`, `SequenceProxy.__iter__`) -/
 
 /-- **round trip through a `StreamReader`, for every delivery**: whatever chunks the server's bytes arrive in
@@ -223,6 +277,63 @@ theorem C01_lazy_type_peek_undetermined :
     simp only [encImpl]
     split <;> simp [encRowsFlat, encRowsNested]
 
+/-! ### the saved `.dods` file reopened: `open_dods_file` (client.py)
+
+`Xdr.openDodsFile` (PydapModel/XdrFile.lean) follows the Python: the file read as TEXT (`encoding="ascii",
+newline="\n", errors="ignore"`) line by line up to the first line with `line.strip() == "Data:"`, the lines before it
+accumulated in `dds`; then the file read as BYTES from offset `len(dds) + len("Data:\n")`.  Unlike `clientRead` (which
+was standing in for it above) it neither searches `\nData:\n` nor drops the DDS's final newline. -/
+
+/-- **`open_dods_file`**: from the body the server emits, saved and reopened, the client recovers the DDS text (whole,
+    with its final newline) and exactly the source values, nothing left over — whatever bytes the values are made of
+    (`\nData:\n`, bytes ≥ 128 that the text decoder would drop, any 0x0A: the loop has stopped before them).
+    `hascii`: the DDS text is ASCII (C07's printer emits nothing else; a byte ≥ 128 would be dropped from `dds` and
+    the offset would fall short); `hno`: no line of the DDS strips to `Data:` (every DDS line ends in `{` or `;`) -/
+theorem C01_open_dods_file (dds0 : Bytes) (t : Tmpl) (d : Data) (h : WF t d = true)
+    (hascii : ∀ b ∈ dds0, b.toNat < 128)
+    (hno : ∀ l ∈ textLines (dds0 ++ [10]), pyStrip l ≠ [68, 97, 116, 97, 58]) :
+    openDodsFile t (body (dds0 ++ [10]) t d) = (dds0 ++ [10], .ok (d, [])) :=
+  openDodsFile_body dds0 t d h hascii hno
+
+/-- … and through any lossless content coding of the response before it was saved -/
+theorem C01_open_dods_file_transport (z unz : Bytes → Bytes) (hz : ∀ b, unz (z b) = b)
+    (dds0 : Bytes) (t : Tmpl) (d : Data) (h : WF t d = true)
+    (hascii : ∀ b ∈ dds0, b.toNat < 128)
+    (hno : ∀ l ∈ textLines (dds0 ++ [10]), pyStrip l ≠ [68, 97, 116, 97, 58]) :
+    openDodsFile t (unz (z (body (dds0 ++ [10]) t d))) = (dds0 ++ [10], .ok (d, [])) :=
+  openDodsFile_body_coded z unz hz dds0 t d h hascii hno
+
+/-- the file reader and the in-memory reader agree on the served body: same values, and the same DDS text up to the
+    final newline that `raw.split(b"\nData:\n", 1)` consumes -/
+theorem C01_open_dods_file_agrees (dds0 : Bytes) (t : Tmpl) (d : Data) (h : WF t d = true)
+    (hascii : ∀ b ∈ dds0, b.toNat < 128)
+    (hno : ∀ l ∈ textLines (dds0 ++ [10]), pyStrip l ≠ [68, 97, 116, 97, 58])
+    (hno' : ∀ i, i < dds0.length →
+      ¬ splitPattern.isPrefixOf ((dds0 ++ splitPattern ++ encImpl t d).drop i) = true) :
+    clientRead t (body (dds0 ++ [10]) t d)
+      = some (((openDodsFile t (body (dds0 ++ [10]) t d)).1).dropLast, (openDodsFile t (body (dds0 ++ [10]) t d)).2) := by
+  rw [C01_end_to_end dds0 t d h hno', C01_open_dods_file dds0 t d h hascii hno]
+  simp
+
+/-- `hno` needs no knowledge of the line structure: a DDS text without a colon has no `Data:` line (DAP2 names in
+    C07's domain contain none and the DDS printer adds none) -/
+theorem C01_open_dods_file_no_colon (dds0 : Bytes) (t : Tmpl) (d : Data) (h : WF t d = true)
+    (hascii : ∀ b ∈ dds0, b.toNat < 128) (hc : (58 : UInt8) ∉ dds0) :
+    openDodsFile t (body (dds0 ++ [10]) t d) = (dds0 ++ [10], .ok (d, [])) :=
+  openDodsFile_body dds0 t d h hascii (no_dataLine_of_no_colon dds0 hc)
+
+/-- **the saved response text, any dataset** (`E2E.fileDecode`, PydapModel/XdrFileText.lean: `open_dods_file` with its
+    own DDS parse — the file counterpart of `C01_e2e_response_text`): for every well-formed dataset `d` (C07's domain)
+    whose DDS text is ASCII and has no line that strips to `Data:`, and every declaration/value pair `(t, data)` the
+    parsed DDS converts to, the file reader — text loop, DDS parse of the WHOLE printed text (final newline included),
+    declaration conversion, seek, XDR decode — recovers the declared tree and exactly the values, nothing left over -/
+theorem C01_e2e_saved_response_text (d : Dds.Dataset) (s0 : Dds.Text) (t : Tmpl) (data : Data) (hwf : Dds.WFds d)
+    (hp : Dds.printDs d = .ok (s0 ++ ['\n'])) (hascii : ∀ c ∈ s0, c.toNat < 128)
+    (hno : ∀ l ∈ textLines (E2E.encodeAscii s0 ++ [10]), pyStrip l ≠ [68, 97, 116, 97, 58])
+    (ht : E2E.tmplOfDataset (Dds.normDs d) = some t) (hd : WF t data = true) :
+    E2E.fileDecode (body (E2E.encodeAscii (s0 ++ ['\n'])) t data) = .ok (Dds.normDs d, data, []) :=
+  E2E.fileDecode_body d s0 t data hwf hp hascii hno ht hd
+
 /-! ### non-vacuity -/
 
 def exT : Tmpl := .struct [.base .uint16 [2, 2], .struct [.base .byte [], .base .string []],
@@ -236,6 +347,20 @@ example : WF exT exD = true := by decide
 example : decImpl exT (encImpl exT exD) = .ok (exD, []) := C01_roundtrip exT exD (by decide)
 example : ∀ i, i < [32, 125].length →
     ¬ splitPattern.isPrefixOf (([32, 125] ++ splitPattern ++ encImpl exT exD).drop i) = true := by decide
+
+/-- non-vacuity of `C01_served_response_read_back`: a Byte array (values ≥ 128), an Int16 grid, a sequence with a
+    String column; the whole dataset (empty query) -/
+def exSrv : Handler.Dataset := ⟨cs!"d", [
+  .base { name := cs!"flags", ty := cs!"Byte", shape := [3], dims := [], data := [10, 200, 255] },
+  .grid cs!"g" { name := cs!"v", ty := cs!"Int16", shape := [2], dims := [cs!"x"], data := [.int (-7), 8] }
+    [{ name := cs!"x", ty := cs!"Int32", shape := [2], dims := [cs!"x"], data := [0, 10] }],
+  .seq cs!"s" [(cs!"i", cs!"Int32"), (cs!"n", cs!"String")] [[1, .str cs!"ab"], [3, .str []]]]⟩
+example : Handler.constrained exSrv [] = .ok exSrv := by decide +kernel
+example : exSrv.WF := by decide +kernel
+example : Handler.respond Pydap.intText exSrv cs!"dds" [] = .ok .dds (.complete
+    cs!"Dataset {\n    Byte flags[flags = 3];\n    Grid {\n        Array:\n            Int16 v[x = 2];\n        Maps:\n            Int32 x[x = 2];\n    } g;\n    Sequence {\n        Int32 i;\n        String n;\n    } s;\n} d;\n") := by
+  decide +kernel
+example : WF (Handler.tmplOf exSrv) (Handler.dataOf exSrv) = true := by decide +kernel
 
 example : E2E.sepFree (E2E.encodeAscii "Dataset {\n    Int16 a[m0 = 2];\n} ds;".toList) = true := by decide
 example : E2E.sepFree (E2E.encodeAscii "x\nData:".toList) = false := by decide
@@ -278,5 +403,42 @@ example : ∃ bs, encSrc (.struct [.arr exRepA, .val (.base .string []) (.scalar
       = some ([32], .ok (.tuple [.array [.num 1, .num (-2), .num 3], .scalar (.str [])], [])) :=
   C01_representation_independent_dataset _ _ [32] _ _ (by rfl) (by rfl) (by decide) (by decide)
 
+/-- `open_dods_file` on a tiny body -/
+example : openDodsFile (.struct [.base .int32 []]) (body ([32] ++ [10]) (.struct [.base .int32 []]) (.tuple [.scalar (.num 5)]))
+    = ([32, 10], .ok (.tuple [.scalar (.num 5)], [])) := by rfl
+example : openDodsFile (.struct [.base .int32 []]) (body ([32] ++ [10]) (.struct [.base .int32 []]) (.tuple [.scalar (.num 5)]))
+    = ([32] ++ [10], .ok (.tuple [.scalar (.num 5)], [])) :=
+  C01_open_dods_file [32] _ _ (by decide) (by decide) (by decide)
+/-- the XDR part holds `\nData:\n` (a Byte array) and bytes ≥ 128 / 0x0A (Byte, Int32): the text loop has stopped
+    before them, the offset is computed from the DDS alone -/
+def exF : Tmpl := .struct [.base .byte [8], .base .int32 []]
+def exFD : Data := .tuple [.array [.num 10, .num 68, .num 97, .num 116, .num 97, .num 58, .num 10, .num 200],
+  .scalar (.num (-2147483638))]
+example : encImpl exF exFD = [0, 0, 0, 8, 0, 0, 0, 8, 10, 68, 97, 116, 97, 58, 10, 200, 0x80, 0, 0, 10] := by decide
+example : (splitPattern ++ [200]).isPrefixOf ((encImpl exF exFD).drop 8) = true := by decide
+example : openDodsFile exF (body ([32, 59] ++ [10]) exF exFD) = ([32, 59, 10], .ok (exFD, [])) := by rfl
+example : openDodsFile exF (body ([32, 59] ++ [10]) exF exFD) = ([32, 59] ++ [10], .ok (exFD, [])) :=
+  C01_open_dods_file [32, 59] exF exFD (by decide) (by decide) (by decide)
+/-- the hypotheses are needed.  A DDS byte ≥ 128 is dropped from the text, the offset falls short by one and the
+    decoder starts at the marker's last byte (`hascii`); a DDS line that strips to `Data:` ends the loop early (`hno`) -/
+example : openDodsFile (.struct [.base .int32 []]) (body ([200] ++ [10]) (.struct [.base .int32 []]) (.tuple [.scalar (.num 5)]))
+    = ([10], .ok (.tuple [.scalar (.num 167772160)], [5])) := by rfl
+example : openDodsFile (.struct [.base .int32 []])
+    (body ([32, 68, 97, 116, 97, 58, 9] ++ [10]) (.struct [.base .int32 []]) (.tuple [.scalar (.num 5)]))
+    = ([], .ok (.tuple [.scalar (.num 151667809)], [116, 97, 58, 10, 0, 0, 0, 5])) := by rfl
+example : pyStrip [28, 9, 68, 97, 116, 97, 58, 31, 13, 10] = [68, 97, 116, 97, 58] := by decide
+example : textLines [97, 10, 10, 98] = [[97, 10], [10], [98]] ∧ textLines [97, 10] = [[97, 10]] := by decide
+
+example : openDodsFile exF (body ([32, 59] ++ [10]) exF exFD) = ([32, 59] ++ [10], .ok (exFD, [])) :=
+  C01_open_dods_file_no_colon [32, 59] exF exFD (by decide) (by decide) (by decide)
+/-- a printed DDS, saved with its data and reopened: the tree `dds_to_dataset` builds and the value -/
+def exSavedDs : Dds.Dataset := E2E.answerDs "ds".toList "a".toList [] .int16 []
+def exSavedText : Dds.Text := "Dataset {\n    Int16 a;\n} ds;".toList
+example : Dds.printDs exSavedDs = .ok (exSavedText ++ ['\n']) := by decide
+example : E2E.fileDecode (body (E2E.encodeAscii (exSavedText ++ ['\n'])) (E2E.answerTmpl .int16 []) (.tuple [.scalar (.num (-3))]))
+    = .ok (Dds.normDs exSavedDs, .tuple [.scalar (.num (-3))], []) :=
+  C01_e2e_saved_response_text exSavedDs exSavedText _ _
+    (E2E.answerDs_wf _ _ _ _ _ ⟨by decide, by decide⟩ ⟨by decide, by decide⟩ (by simp)) (by decide) (by decide) (by decide)
+    (E2E.answerDs_tmpl _ _ _ _ _ (Or.inl rfl)) (by decide)
 
 end Pydap.C01
